@@ -194,6 +194,12 @@ async fn shard_main(cfg: Cfg, shard: usize, q: Quota, t_start: Instant) -> Stats
         }
     };
     let variant = if wal { "file-wal-pool4" } else { "file-rollback-journal-pool4" };
+    let lock_probe = if file_store.is_some() {
+        let opts = SqliteConnectOptions::new().filename(&db_path).busy_timeout(Duration::from_millis(1500));
+        SqlitePoolOptions::new().max_connections(1).min_connections(1).idle_timeout(None).max_lifetime(None).connect_with(opts).await.ok()
+    } else {
+        None
+    };
     let out_of_time = |frac: f64| t_start.elapsed().as_secs_f64() > cfg.budget_s * frac;
     let mut ctr: u64 = 0;
     let mut next_seed = |stream: u64| {
@@ -268,6 +274,26 @@ async fn shard_main(cfg: Cfg, shard: usize, q: Quota, t_start: Instant) -> Stats
                 }
                 let plan = conc_plan(next_seed(5), true);
                 conc::run_conc(&plan, store.clone(), "sqlite", variant, clock, &mut stats, first && i == 0).await;
+                // every call has returned: whatever it did is committed, so nobody may still hold the write lock. A fresh
+                // connection (not one of the store's) takes and releases it; `database is locked` after 1.5 s of patience means
+                // that a connection of the store's pool went back with a transaction open.
+                if let Some(probe) = &lock_probe {
+                    let t = sqlx::query("BEGIN IMMEDIATE").execute(probe).await;
+                    match t {
+                        Ok(_) => {
+                            let _ = sqlx::query("ROLLBACK").execute(probe).await;
+                            stats.add("sqlite_write_lock_free_after_history", 1);
+                        }
+                        Err(e) if e.to_string().contains("locked") => {
+                            stats.violation(
+                                json!({"store": "sqlite", "cause": "write_transaction_left_open_after_every_call_returned"}),
+                                json!({"error": e.to_string(), "variant": variant, "hseed": plan.hseed, "ops": format!("{:?}", plan.setup.len())}),
+                            );
+                            break;
+                        }
+                        Err(e) => stats.inconc("the write-lock probe failed", json!({"error": e.to_string()})),
+                    }
+                }
             }
         }
 
@@ -293,6 +319,9 @@ async fn shard_main(cfg: Cfg, shard: usize, q: Quota, t_start: Instant) -> Stats
             stats.add("rounds_cut_by_time_budget", 1);
             break 'rounds;
         }
+    }
+    if let Some(p) = lock_probe {
+        p.close().await;
     }
     if let Some((_, pool)) = file_store {
         pool.close().await;
